@@ -153,6 +153,15 @@ func (s ElemSet) build() built {
 	}
 	switch s.Kind {
 	case "points":
+		// element k of a point mesh is vertex indices[k]: the whole lattice as vertex table, the set's
+		// points selected (in the set's order) by the index buffer — never the identity
+		idx := make([]int, len(s.Elems))
+		for i, e := range s.Elems {
+			idx[i] = e[0]
+		}
+		m := modeling.NewMesh(modeling.PointTopology, idx).SetFloat3Attribute(modeling.PositionAttribute, latTable())
+		return built{scope(m), meshTree(m)}
+	case "points-identity":
 		pts := make([]V3, len(s.Elems))
 		for i, e := range s.Elems {
 			pts[i] = latPoint(e[0])
